@@ -165,7 +165,9 @@ func (e *kvElection) handleWatchEvent(entry Entry) {
 				)...,
 			)
 			verifNote(e, "watch_lost", 0)
-			e.becomeFollower()
+			if e.becomeFollower() {
+				e.notifyDemoted("leadership_lost_via_watcher")
+			}
 		}
 		return
 	}
